@@ -3,6 +3,7 @@ package main
 // Persistent SMT solver process (z3 -in by default), text SMT-LIB2.
 
 import (
+	"os"
 	"bufio"
 	"fmt"
 	"io"
@@ -54,6 +55,11 @@ func NewSolver(kind string, ctx *Ctx, timeoutMs int) (*Solver, error) {
 		return nil, err
 	}
 	s := &Solver{name: kind, cmd: cmd, in: in, out: bufio.NewReaderSize(outp, 1<<16), ctx: ctx, timeout: timeoutMs}
+	if p := os.Getenv("GOSYM_SMTLOG"); p != "" {
+		if f, err := os.Create(fmt.Sprintf("%s.%d", p, cmd.Process.Pid)); err == nil {
+			s.log = f
+		}
+	}
 	if kind == "cvc5" {
 		s.send("(set-logic ALL)")
 		s.send(fmt.Sprintf("(set-option :tlimit-per %d)", timeoutMs))
